@@ -383,7 +383,7 @@ def value_check(pid, tier_, plan, kbits=14, rule='', extra_execs=(), all_known=F
         pick = list(ks) if (len(ks) <= 48 or tier_ == 'thorough') else rng.sample(ks, 8)
         zp = [{k} for k in pick] + [set(k for k in ks if rng.random() < 0.33)]
         # ... and every PAIR of them for the small solutions (a guard on two parameters at once)
-        if len(ks) <= (16 if tier_ == 'quick' else 40):
+        if len(ks) <= (16 if tier_ == 'quick' else 24):
             zp += [{a, b} for i, a in enumerate(ks) for b in ks[i + 1:]]
         for i in range(0, len(zp), 6):
             execs.append(gen.gen_values(rng, sol, nassign=len(zp[i:i + 6]), npts=1, evaluators=evs, zero_plan=zp[i:i + 6]))
@@ -515,7 +515,8 @@ def c09(tier_):
     plan = [(s, None, na, npt) for s in ALLVAL if s != 'sod_1d'] + [('sod_1d', [('source_rho', 'SS'), ('source_rho_u', 'SS')], na, npt)]
     plan.append(('navierstokes_ablation_1d_steady', [c for c in map(tuple, CAT['navierstokes_ablation_1d_steady']['caps']) if c[0] != 'source_rho_e'], na, npt))      # (source_rho_e is not in the oracle)
     gen.FULL_MANTISSA[0] = True      # generic 53-bit inputs: sums and products of the inputs are inexact in double
-    return value_check('C09', tier_, plan, kbits=6, all_known=True, mix=True, accstat=True, zeros=(tier_ == 'thorough'),
+    return value_check('C09', tier_, plan, kbits=6, all_known=True, mix=True, accstat=True, zeros=False,      # exact zeros belong to C01-C08
+       
         rule='all solutions of C01-C08, each assignment and point evaluated in both precisions with identical (exactly representable) inputs; transport coefficients and velocity amplitudes rescaled by random decades so that different groups of terms dominate, inputs generic 53-bit doubles; each result must be finite and within 2^6 u_p mag of the 45-digit oracle value (u_d = 2^-53, u_ld = 2^-64), hence double and long double agree to double precision; and per (solution, evaluator) the median error of the long double results, in long double roundoffs, must not exceed the median error of the double results, in double roundoffs, by more than 4 bits (history variable acc of MasaTrace): long double is not limited to double accuracy.')
 
 
